@@ -124,7 +124,7 @@ def run_check(pid, tier, seed, harness_specs, level_note, args):
             if os.environ.get('VERIF_TV_ALL'):
                 hz.tv_every = 1     # validate every completed path against the native build (development aid)
             hz.tv_phase = seed % hz.tv_every
-        S = explore.explore(hz, workers=args.workers, time_limit=spec.get('time_limit', {}).get(tier, 600), seed=seed)
+        S = explore.explore(hz, workers=args.workers, time_limit=max(20, int(spec.get('time_limit', {}).get(tier, 600) * float(os.environ.get('VERIF_TIME_SCALE', '1') or 1))), seed=seed)
         total['paths'] += S.paths; total['steps'] += S.steps; total['queries'] += S.queries; total['solver_s'] += S.solver_s
         total['obligations'] += S.obligations; total['smt'] += S.smt_obligations
         for k, v in S.fn_stmts.items():
